@@ -30,6 +30,20 @@ pub fn pv_text(v: &PropertyValue) -> String {
     }
 }
 
+/// A string cell.  The one-row `plan` report of `EXPLAIN` / `PROFILE` carries wall-clock
+/// timings, row counts and store statistics: it is reduced to the letters of the plan
+/// description (the text before the first `---` section), so that two reports of the same plan
+/// compare equal and a report never compares equal to ordinary rows.
+pub fn str_cell(s: &str) -> String {
+    if s.contains("--- Statistics ---") || s.contains("--- Profile ---") {
+        let head = s.split("\n---").next().unwrap_or("");
+        let letters: String = head.chars().filter(|c| c.is_ascii_alphabetic()).take(120).collect();
+        format!("PLAN<{}>", letters)
+    } else {
+        format!("S{}", esc(s))
+    }
+}
+
 /// printable, space-free rendering of a string
 pub fn esc(s: &str) -> String {
     let mut o = String::new();
@@ -140,7 +154,7 @@ fn value_cell(v: &Value) -> String {
     match v {
         Value::Null => "N".into(),
         Value::Property(PropertyValue::Integer(i)) => format!("I{}", i),
-        Value::Property(PropertyValue::String(s)) => format!("S{}", esc(s)),
+        Value::Property(PropertyValue::String(s)) => str_cell(s),
         Value::Property(PropertyValue::Null) => "N".into(),
         Value::Property(p) => format!("?{}", pv_text(p)),
         Value::Node(..) | Value::NodeRef(..) => "node".into(),
@@ -175,7 +189,7 @@ fn resp_cell(v: &RespValue) -> String {
                 // quirk of the reply, not a routing matter — read as null
                 "N".into()
             } else {
-                format!("S{}", esc(&s))
+                str_cell(&s)
             }
         }
         RespValue::Array(a) => format!("L[{}]", a.iter().map(resp_cell).collect::<Vec<_>>().join(",")),
@@ -217,7 +231,7 @@ fn json_cell(v: &serde_json::Value) -> String {
         J::Null => "N".into(),
         J::Number(n) if n.is_i64() => format!("I{}", n.as_i64().unwrap()),
         J::Number(n) => format!("?num{}", n),
-        J::String(s) => format!("S{}", esc(s)),
+        J::String(s) => str_cell(s),
         J::Bool(b) => format!("?bool{}", b),
         J::Object(o) if o.contains_key("labels") => "node".into(),
         J::Object(o) if o.contains_key("source") => "rel".into(),
@@ -284,6 +298,34 @@ pub fn run_engine(store: &mut GraphStore, text: &str) -> Outcome {
     }
 }
 
+/// **The engine run directly** (the reference of C23): `QueryEngine::execute`, and
+/// `QueryEngine::execute_mut` when the read executor says the statement is a write plan —
+/// the engine's documented dispatch.  Also returns what the planner said (`plan.is_write`,
+/// observed as the refusal; `None` when the statement does not reach the check: parse error,
+/// `EXPLAIN`, another error).
+pub fn run_engine_split(store: &mut GraphStore, text: &str) -> (Outcome, Option<bool>) {
+    let engine = samyama::query::QueryEngine::new();
+    let first = std::panic::catch_unwind(std::panic::AssertUnwindSafe(|| engine.execute(text, store).map_err(|e| e.to_string())));
+    match first {
+        Ok(Ok(b)) => {
+            // EXPLAIN returns before the write check: the planner's verdict is not observable
+            let explained = parse_query(text).map(|q| q.explain).unwrap_or(false);
+            (batch_outcome(&b), if explained { None } else { Some(false) })
+        }
+        Ok(Err(e)) if e.contains("read-only executor") => {
+            let second = std::panic::catch_unwind(std::panic::AssertUnwindSafe(|| engine.execute_mut(text, store, "default").map_err(|e| e.to_string())));
+            let o = match second {
+                Ok(Ok(b)) => batch_outcome(&b),
+                Ok(Err(e)) => err_outcome(&e),
+                Err(_) => Outcome { canon: "panic".into(), refused: false, is_err: true, is_parse_err: false },
+            };
+            (o, Some(true))
+        }
+        Ok(Err(e)) => (err_outcome(&e), None),
+        Err(_) => (Outcome { canon: "panic".into(), refused: false, is_err: true, is_parse_err: false }, None),
+    }
+}
+
 /// `Some(true)` when the read executor refuses the statement as a write plan (`plan.is_write`),
 /// `Some(false)` when it runs or fails otherwise, `None` when the statement does not parse
 pub fn plan_is_write(store: &GraphStore, text: &str) -> Option<bool> {
@@ -308,6 +350,12 @@ pub async fn run_resp(handler: &CommandHandler, store: &Shared, text: &str) -> R
     handler.handle_command(&cmd, store).await
 }
 
+/// the same with the command name as given (`graph.query`, `Graph.Query` …)
+pub async fn run_resp_named(handler: &CommandHandler, store: &Shared, name: &str, text: &str) -> RespValue {
+    let cmd = RespValue::Array(vec![bulk(name), bulk("default"), bulk(text)]);
+    handler.handle_command(&cmd, store).await
+}
+
 pub async fn run_resp_cmd(handler: &CommandHandler, store: &Shared, words: &[&str]) -> RespValue {
     let cmd = RespValue::Array(words.iter().map(|w| bulk(w)).collect());
     handler.handle_command(&cmd, store).await
@@ -315,10 +363,15 @@ pub async fn run_resp_cmd(handler: &CommandHandler, store: &Shared, words: &[&st
 
 /// POST /api/query on the router the server ships (`HttpServer::router`)
 pub async fn run_http(store: &Shared, data_path: Option<String>, text: &str) -> (u16, serde_json::Value) {
+    run_http_opt(store, data_path, text, false).await
+}
+
+/// `explicit_graph`: send `"graph": "default"` instead of relying on the default
+pub async fn run_http_opt(store: &Shared, data_path: Option<String>, text: &str, explicit_graph: bool) -> (u16, serde_json::Value) {
     use http_body_util::BodyExt;
     use tower::ServiceExt;
     let app = HttpServer::new(Arc::clone(store), 0).with_data_path(data_path).router();
-    let body = serde_json::json!({ "query": text }).to_string();
+    let body = if explicit_graph { serde_json::json!({ "query": text, "graph": "default" }) } else { serde_json::json!({ "query": text }) }.to_string();
     let req = axum::http::Request::builder()
         .method("POST")
         .uri("/api/query")
